@@ -19,7 +19,21 @@ fn send_over(segs: Vec<Seg>, default_cs: Option<&'static Encoding>) -> Result<at
     r.map_err(|e| format!("{:?}", e.kind()))
 }
 
+/// A byte order mark is only ever *removed* when it is the mark of the charset in use; it never selects a
+/// charset (the statement names the header label, the configured default and Windows-1252 — nothing else).
+const BOMS: [&[u8]; 3] = [&[0xef, 0xbb, 0xbf], &[0xff, 0xfe], &[0xfe, 0xff]];
+
 fn body_for(rng: &mut Rng, enc: &'static Encoding) -> Vec<u8> {
+    if rng.chance(1, 7) {
+        // a body that starts with a byte order mark — of this or of another charset
+        let mut v = rng.pick(&BOMS).to_vec();
+        let (b, _, _) = enc.encode("hi — ünï 日本");
+        v.extend_from_slice(&b);
+        if rng.chance(1, 3) {
+            v.extend_from_slice(&[0x68, 0x00, 0x69, 0x00]);
+        }
+        return v;
+    }
     match rng.below(6) {
         0 => vec![],
         1 => {
@@ -129,6 +143,8 @@ pub fn generate(seed: u64, tier: &str, sink: &mut Sink) {
                 return Err((format!("wrong-charset-{}", form), format!("Content-Type {:?} default {:?}: decoding with {}, statement gives {}", ct.as_ref().map(|c| String::from_utf8_lossy(c).to_string()), dflt.map(|d| d.name()), chosen, expect.name())));
             }
             let (whole, _) = expect.decode_without_bom_handling(&body);
+            // the mark of the very charset in use may be dropped from the text (U+FEFF at the start)
+            let sans_bom = |w: &str| -> Option<String> { w.strip_prefix('\u{feff}').map(|x| x.to_string()) };
             let (got, what): (Result<String, String>, &str) = match call {
                 0 => (resp.text().map_err(|e| format!("{:?}", e.kind())), "text"),
                 1 => {
@@ -153,7 +169,7 @@ pub fn generate(seed: u64, tier: &str, sink: &mut Sink) {
                     let want = e2.decode_without_bom_handling(&body).0.into_owned();
                     let g = resp.text_with(e2).map_err(|e| format!("{:?}", e.kind()));
                     return match g {
-                        Ok(t) if t == want || has_bom => Ok((chosen.to_string(), "text_with".to_string())),
+                        Ok(t) if t == want || sans_bom(&want).as_deref() == Some(t.as_str()) => Ok((chosen.to_string(), "text_with".to_string())),
                         Ok(_) => Err(("text-with-ignored".into(), "text_with(KOI8-R) did not decode as KOI8-R".into())),
                         Err(e) => Err(("decode-error-text_with".into(), e)),
                     };
@@ -171,7 +187,7 @@ pub fn generate(seed: u64, tier: &str, sink: &mut Sink) {
             match got {
                 Err(e) => Err((format!("decode-error-{}-{}", what, expect.name()), format!("{} failed on the {}-byte body {} (segmentation mode {}): {}", what, body.len(), hex(&body[..body.len().min(64)]), seg_mode, e))),
                 Ok(t) => {
-                    if t != whole && !has_bom {
+                    if t != whole && sans_bom(&whole).as_deref() != Some(t.as_str()) {
                         let tail_only = whole.starts_with(t.as_str()) && whole[t.len()..].chars().all(|c| c == '\u{fffd}');
                         let kind = if tail_only { "drops-incomplete-tail" } else { "differs" };
                         if tail_only && what == "text_reader" && rbuf < 4 {
@@ -206,7 +222,7 @@ pub fn generate(seed: u64, tier: &str, sink: &mut Sink) {
             table
         );
         sink.push(Case {
-            tags: vec![format!("header={}", form), format!("default={}", dflt.map(|d| d.name()).unwrap_or("none")), format!("call={}", what), format!("seg={}", ["one", "1-byte", "random"][seg_mode as usize]), format!("charset={}", expect.name())],
+            tags: vec![format!("header={}", form), format!("default={}", dflt.map(|d| d.name()).unwrap_or("none")), format!("call={}", what), format!("seg={}", ["one", "1-byte", "random"][seg_mode as usize]), format!("charset={}", expect.name()), format!("bom={}", has_bom)],
             op,
             impl_line: format!("cs={}", hex(impl_cs.as_bytes())),
             oracle: o.map(|_| ()),
